@@ -1622,6 +1622,54 @@ func (x *SExec) doRebuild(i int, op SOp) *Fail {
 	if f := writes(op.N); f != nil {
 		return f
 	}
+	missedAcked := false
+	if op.Str == "writefail" && !x.readOnly() {
+		// the rebuilding replica answers one foreground write with an error: that
+		// ends its rebuild - it is detached, and whatever the rebuild goes on to do
+		// it must not be promoted without the write it missed
+		total := x.Live.size() / Sec
+		off := (int64(op.Seed) * 8) % total / 8 * 8
+		data := payload(i*100+91, 1+op.Seed%200, off*Sec, Blk)
+		W := x.writers()
+		d.SetNext("write", ERR)
+		n, werr := st.C.WriteAt(data, off*Sec)
+		d.ClearFaults()
+		ack := werr == nil && n == len(data)
+		x.tracef("rebuild: foreground write off=%d failed by the rebuilding n%d -> n=%d err=%v; n%d now listed %q", off*Sec, dst, n, werr, dst, st.Mode(dst))
+		if ack {
+			x.Live.Write(off*Sec, data)
+			var A []int
+			arw := 0
+			for _, w := range W {
+				if w != dst {
+					A = append(A, w)
+					if x.Mode[w] == types.RW {
+						arw++
+					}
+				}
+			}
+			x.Acked = append(x.Acked, ackedWrite{Off: off * Sec, Len: Blk, Sum: sum64(data), W: W, A: A, ARW: arw, Unordered: true})
+			missedAcked = true
+		} else {
+			for sct := off; sct < off+8; sct++ {
+				x.Live.Indet[sct] = true
+			}
+		}
+		x.Labels["rebuild:write-failed-by-rebuilding-replica"]++
+		if st.Mode(dst) == "" {
+			x.detach(dst)
+			x.Labels["rebuild:interrupted"]++
+			// the other replicas are untouched
+			for j, m := range x.Mode {
+				if (m == types.RW || m == types.WO) && st.Mode(j) != m {
+					return sfail("rebuild|failed-write-detached-another-replica", fmt.Sprintf("n%d failed the write but n%d (%s) is now listed %q", dst, j, m, st.Mode(j)), "C07", "C02", "C05")
+				}
+			}
+			return nil
+		}
+		// still attached: see whether the rebuild now gets it promoted
+		op.N = 0
+	}
 	sc, err := s.S.Replica().Chain()
 	if err != nil {
 		return sfail("rebuild|source-chain", err.Error(), "C07")
@@ -1741,6 +1789,8 @@ func (x *SExec) doRebuild(i int, op SOp) *Fail {
 				return sfail("rebuild|verify-refused", fmt.Sprintf("verification of a complete rebuild failed: %v", verr), "C07")
 			}
 			interrupted = "verify failed: " + verr.Error()
+		} else if missedAcked {
+			return sfail("rebuild|promoted-although-it-missed-an-acknowledged-write", fmt.Sprintf("n%d answered an acknowledged foreground write with an error while it was rebuilding, stayed attached and has now been verified and promoted", dst), "C07", "C02")
 		} else if skip >= 0 {
 			return sfail("rebuild|verify-accepted-incomplete-chain", fmt.Sprintf("snapshot %s was not transferred but the rebuild was verified", sc[skip]), "C07")
 		} else if nocopy {
